@@ -78,7 +78,7 @@ def case_from_tlc(obj, h, g):
         extras.append({"dirs": ["src", "test", "resources"], "name": "data.properties"})
     via = "cli" if rnd.randrange(12) == 0 else "api"
     c = {"case": "tlc-" + h,
-         "input": {"layout": inp["layout"], "via": via, "style": rnd.randrange(1 << 20), "files": files, "extras": extras}}
+         "input": {"layout": inp["layout"], "via": via, "rel": rnd.randrange(3) == 0, "style": rnd.randrange(1 << 20), "files": files, "extras": extras}}
     m = obj.get("machine")
     if isinstance(m, dict):
         # the Machine's own report for the class (drift note only, never a verdict)
